@@ -113,6 +113,15 @@ impl XBuildWorld {
 
     /// returns (observation, script of kernel replies as observed)
     pub fn exec(&mut self, rec: &mut Rec, line: &str) -> (String, String) {
+        let r = self.exec1(rec, line);
+        let (dbl, at) = crate::interpose::take_double_unmaps();
+        if dbl > 0 {
+            rec.fail("C12", "x/mapping-unmapped-twice", &format!("{} range at {:#x} released {} more time(s)", line, at, dbl));
+        }
+        r
+    }
+
+    fn exec1(&mut self, rec: &mut Rec, line: &str) -> (String, String) {
         let kv = Kv::parse(line);
         match kv.op {
             "x.reset" => {
